@@ -36,6 +36,12 @@ func (vg *vgen) bytesOfLen() []byte {
 		n = 57
 	case 7:
 		n = 255 + r.Intn(3)
+	case 8:
+		if r.Intn(8) == 0 { // the two-byte / three-byte boundary of the length prefix (rare: 64 KiB per value)
+			n = 65535 + r.Intn(3)
+		} else {
+			n = r.Intn(40)
+		}
 	default:
 		n = r.Intn(40)
 	}
@@ -103,6 +109,9 @@ func (vg *vgen) gen(d *Desc, depth int) *V {
 			x = 256
 		case 6:
 			x = math.MaxUint64
+		case 7: // every byte-width boundary of the big-endian integer form: 2^(8k)-1, 2^(8k), 2^(8k)+1
+			k := uint(1 + r.Intn(7))
+			x = (uint64(1) << (8 * k)) + uint64(r.Intn(3)) - 1
 		default:
 			x = r.Uint64() >> uint(r.Intn(64))
 		}
@@ -441,6 +450,10 @@ func (P) Generate(g *hx.Gen) {
 		ops := header(r, "canon")
 		for j := 0; j < 4; j++ {
 			ops = append(ops, encOp(r, permuteMaps(g, v), false))
+		}
+		if k%4 == 0 {
+			ops = append(ops, "cenc n=8 reps=40")
+			g.Count("concurrent-encode")
 		}
 		g.Count("canon-root:" + sanitize(r.Name))
 		g.Case("canon "+r.Name, ops, strings.Contains(v.String(), ","))
